@@ -1,6 +1,7 @@
 import KinModel.Drv.Util
 import KinModel.Internalize
 import KinModel.Lemmas.C16Heaps
+import KinModel.Lemmas.C16Rerun
 open Lean
 namespace KinModel.Drv.C16
 open KinModel.Drv KinModel.Internalize
@@ -106,14 +107,25 @@ def handle (j : Json) : Json :=
       (if !kindsPlain h then ["KindWithSlash"] else [])
     -- a class is reported only when the model predicts a failure (by `spec_holds_partial` at least one then holds)
     let excl := if ok then [] else excl
+    -- the reuse dimension: a second call on the state the first one left (visited sets reset)
+    let allint := allIntB s
+    let second : List (String × Json) :=
+      match internalizeM h (budget h) (rerunSt h s) with
+      | .ok (_, s2) =>
+        [("outcome2", Json.str "done"), ("refs2", strsOf s2.refs.toList), ("pirefs2", strsOf s2.pirefs.toList),
+         ("comps2", jobj (kinds.map fun k => (k, strsOf ((compsOf s2 k.toList).map (·.1)))))]
+      | .error (.panic _) => [("outcome2", Json.str "panic")]
+      | .error .fuel => [("outcome2", Json.str "diverge")]
     jobj [
-      ("model", jobj [("outcome", Json.str "done"), ("refs", strsOf s.refs.toList), ("pirefs", strsOf s.pirefs.toList),
+      ("model", jobj ([("outcome", Json.str "done"), ("refs", strsOf s.refs.toList), ("pirefs", strsOf s.pirefs.toList),
                       ("comps", jobj (kinds.map fun k => (k, strsOf ((compsOf s k.toList).map (·.1))))),
                       ("specok", Json.bool ok), ("ambiguous", Json.bool s.ambiguous),
-                      ("cyclic", Json.bool (InlinedCycle h s)), ("twin", twinOf j h)]),
+                      ("cyclic", Json.bool (InlinedCycle h s)), ("twin", twinOf j h),
+                      ("allint", Json.bool allint)] ++ second)),
       ("spec", jobj [("ok", Json.bool true)]),
       ("excl", jstrs excl),
-      ("branches", jstrs (s.flags ++ (if ok then [] else ["spec.fails"]) ++ (if s.flags.isEmpty then [] else features h)))]
+      ("branches", jstrs (s.flags ++ (if ok then [] else ["spec.fails"]) ++
+        (if s.flags.isEmpty then [] else features h ++ (if allint then ["second_call.compared"] else []))))]
   | .panic site =>
     jobj [("model", jobj [("outcome", Json.str "panic"), ("site", Json.str site), ("specok", Json.bool false)]),
           ("spec", jobj [("ok", Json.bool true)]),
